@@ -44,6 +44,9 @@ type Case struct {
 	Query     []QV     `json:"query,omitempty"`  // SetQueryParam calls
 	RtSchemes []string `json:"rt_schemes"`       // schemes of the transport (client.New)
 	OpSchemes []string `json:"op_schemes"`       // schemes of the operation
+	// Earlier: scheme lists of operations that were built on the same transport before this one (their URLs are not
+	// judged): what an earlier operation offered decides nothing for a later one.
+	Earlier [][]string `json:"earlier,omitempty"`
 }
 
 // Model ------------------------------------------------------------------------------------------------
@@ -315,6 +318,10 @@ func buildOnce(c Case, order []int) (req *http.Request, err error, v *kit.Violat
 	}
 	v = kit.Guard("Runtime.CreateHttpRequest", func() {
 		rt := client.New(c.Host, base, c.RtSchemes)
+		for _, es := range c.Earlier {
+			_, _ = rt.CreateHttpRequest(&runtime.ClientOperation{ID: "earlier", Method: http.MethodGet, PathPattern: "/earlier", Schemes: es,
+				Params: runtime.ClientRequestWriterFunc(func(runtime.ClientRequest, strfmt.Registry) error { return nil })})
+		}
 		op := &runtime.ClientOperation{ID: "c10", Method: http.MethodGet, PathPattern: pattern, Schemes: c.OpSchemes,
 			Params: runtime.ClientRequestWriterFunc(func(r runtime.ClientRequest, _ strfmt.Registry) error {
 				for _, i := range order {
@@ -362,8 +369,8 @@ func buildOnce(c Case, order []int) (req *http.Request, err error, v *kit.Violat
 }
 
 func describe(c Case) string {
-	return fmt.Sprintf("host=%q base=%q base-query=%q pattern=%q pattern-query=%q params=%v caller-query=%v transport-schemes=%v operation-schemes=%v",
-		c.Host, c.Base, c.BaseQuery, c.Pattern, c.PatQuery, fmtParams(c.Params), fmtQuery(c.Query), c.RtSchemes, c.OpSchemes)
+	return fmt.Sprintf("host=%q base=%q base-query=%q pattern=%q pattern-query=%q params=%v caller-query=%v transport-schemes=%v operation-schemes=%v schemes-of-earlier-operations-on-the-transport=%v",
+		c.Host, c.Base, c.BaseQuery, c.Pattern, c.PatQuery, fmtParams(c.Params), fmtQuery(c.Query), c.RtSchemes, c.OpSchemes, c.Earlier)
 }
 
 func fmtParams(ps []PV) string {
@@ -675,6 +682,12 @@ func Classify(c Case) (bool, []string) {
 	}
 	if len(c.RtSchemes) > 0 && len(c.OpSchemes) > 0 {
 		labels["schemes: transport and operation"] = true
+	}
+	if len(c.Earlier) > 0 {
+		labels["schemes: earlier operations on the same transport"] = true
+		if len(c.RtSchemes) == 0 {
+			labels["schemes: earlier operations on a transport without schemes of its own"] = true
+		}
 	}
 	switch {
 	case len(offered) == 0:
